@@ -401,6 +401,11 @@ Proof. exact (conj uniform1_obj (conj from_mask1_obj (Mask1D_geometry_extent))).
    repository pairs the grid of the UNMASKED pixels with the all-false mask: fewer values than the mask has pixels *)
 Theorem C02_derive_all_false_1d_refuted : exists M, length (fst (DeriveGrid1D_all_false_current M)) <> length (unmasked1 (fst (fst (snd (DeriveGrid1D_all_false_current M))))).
 Proof. exact derive_all_false_1d_refuted. Qed.
+(* ... and the REPAIRED body (values from grid_1d_slim_via_shape_slim_from, as DeriveGrid2D.all_false does) returns every pixel's centre *)
+Theorem C02_derive_all_false_1d_repaired : forall (m : list bool) s o, s <> 0 ->
+  DeriveGrid1D_all_false_repaired (m, s, o) =
+  (map (@centre1_spec ROps (Z.of_nat (length m)) s o) (seqZ (Z.of_nat (length m))), (full1 false (Z.of_nat (length m)), s, o)).
+Proof. exact derive_all_false_1d_repaired_ok. Qed.
 
 (* ---- 13. with property C01's development (slim <-> native): Grid2D.from_mask(mask).native -- C01's native_from applied to the slim values --
    holds the centre of the k-th unmasked pixel AT that pixel and (0, 0) at masked pixels.  C01 indexes pixels by nat pairs (native_for_slim =
@@ -531,4 +536,5 @@ Print Assumptions C02_snap_to_pixel_centre.
 Print Assumptions C02_native_routine.
 Print Assumptions C02_1d_objects.
 Print Assumptions C02_derive_all_false_1d_refuted.
+Print Assumptions C02_derive_all_false_1d_repaired.
 Print Assumptions C02_from_mask_native.
